@@ -71,6 +71,17 @@ func preCase(m *Monitor, c *Case) {
 	}
 }
 
+// jsonSafe returns v, or its %+v rendering when v cannot be marshalled (NaN and infinities inside a description).
+func jsonSafe(v any) any {
+	if v == nil {
+		return nil
+	}
+	if _, err := json.Marshal(v); err != nil {
+		return fmt.Sprintf("%+v", v)
+	}
+	return v
+}
+
 func describe(c *Case) (d any) {
 	if c.Desc == nil {
 		return nil
@@ -91,7 +102,7 @@ func witnessOf(c *Case, stack string) Witness {
 		c.reason += fmt.Sprintf(" [GOMAXPROCS=%d]", c.procs)
 	}
 	return Witness{Property: c.Prop, Tier: c.Tier, Seed: c.Seed, Index: c.I, Class: c.class, Reason: c.reason,
-		Detail: c.failDetail, Case: describe(c), Stack: stack}
+		Detail: jsonSafe(c.failDetail), Case: jsonSafe(describe(c)), Stack: stack}
 }
 
 // RunWorker processes cases [a,b) and writes <out>.json (results) and <out>.keys (hashes of distinct
